@@ -59,7 +59,7 @@ class C15(Prop):
         shutil.rmtree(self.tmp, ignore_errors=True)
 
     def cases(self, tier, seed, shard, nshards):
-        n = {"quick": 16, "thorough": 500}[tier]
+        n = {"quick": 16, "thorough": 640}[tier]
         for i in range(shard, n, nshards):
             yield {"i": i, "seed": seed}
 
